@@ -7,6 +7,7 @@
  */
 #ifndef C04_HANDLER_H
 #define C04_HANDLER_H
+#include "c04_codes.h" /* written by harness/c04.py from the translated table of documented codes */
 
 /* exactly n accessible bytes: for n == 0 a pointer one past a 1-byte allocation, so that ANY access is reported */
 static uint8_t* c04_exact_alloc(size_t n, void** base)
@@ -86,7 +87,7 @@ static const char* c04_token(const char* s, char* out, size_t cap)
             int guard = 0;                                                                                            \
             C04_CHECK_PADDING(T, o2, fill, guard);                                                                    \
             if (guard) { o_str("guard:padding-modified"); }                                                           \
-            else if (rc < 0) { o_str(err_name(rc)); }                                                                 \
+            else if (rc < 0) { o_str(c04_c_err_name(rc)); }                                                                 \
             else { o_str("ok"); dump_##T(o2); o_u64(sz); }                                                            \
             free(o2);                                                                                                 \
             free(inbase);                                                                                             \
@@ -105,7 +106,7 @@ static const char* c04_token(const char* s, char* out, size_t cap)
             if (cap) { memset(buf, 0x55, cap); }                                                                      \
             size_t size = cap;                                                                                        \
             const int rc = T##_serialize_(obj, buf, &size);                                                           \
-            if (rc < 0) { o_str(err_name(rc)); }                                                                      \
+            if (rc < 0) { o_str(c04_c_err_name(rc)); }                                                                      \
             else if (size > cap) { o_str("err:size-above-capacity"); }                                                \
             else { o_str("ok"); o_hex(buf, size); }                                                                   \
             free(bufbase);                                                                                            \
